@@ -2,6 +2,7 @@ import SockModel.Model.TlsLemmas
 import SockModel.Model.HsLemmas
 import SockModel.Model.TlsBudget
 import SockModel.Model.TlsLogLemmas
+import SockModel.Spec.C18
 /-!
 # C18  TLS sockets encrypt, need a TLS peer, and always complete the handshake
 
@@ -1660,5 +1661,37 @@ example :
     (sendT Cfg.current (logWorld TW.world) twoRoundEngine
       (freshOn 1 { waits := [(true, 3), (true, 4)], sends := [.accept 2] }) [1, 2, 3] (-1)).1 = .ok 3 := by
   constructor <;> simp [twoRoundEngine, Int.min_def, receiveT, sendT, tlsRead, tlsWrite, handleLastError, handleError, setTimeout, freshOn, withLog, readLoop, readRound, writeLoop, writeRound, writeRetry, roundDecreases, setPending, interp, bioRead, bioWrite, noteWrite, Net.sendSome, Net.sendAll, sendTry, sendNow, receive, recvNow, logWorld, TW.world, TW.elapsed, noteCall, handleResult, SslAns.toErr, setLastError, waitUnder, underDeadline, remainingMs, logOf, stash, Cfg.current, stepsMaxConst, SockModel.Consts.handshakeStepsMax]
+
+end SockModel.Tls
+
+/-! ## the run-time oracle is a theorem of the model -/
+namespace SockModel.Tls
+open SockModel.Net
+
+/-- **spec_holds_on_model_partial** (`_partial`: the event-by-event clauses; the end-of-case clauses `Spec.specFinal` -
+wire format, payload round trip, completion, "a non-TLS peer is reported" - are statements about both engines, the
+channel and the schedule, see the comment after `Spec.model_satisfies_spec_partial` in `Spec/C18.lean`).
+The predicate `./check C18` (and the TLS slices of `./check C01`, `./check C07`) evaluate event by event on the
+implementation's transcript - `Spec.specRun` of `Spec/C18.lean`; the driver calls exactly these functions - accepts
+every trace the glue MODEL can produce: for every glue configuration, every kernel with the harness's virtual clock
+(`Spec.VClock`), every engine under the contract `Spec.EngOk` (plaintext only after `init_finished` and never from a
+non-TLS peer; fail-stop), every fresh pair of endpoints (synchronous / asynchronous / absent, TLS or plain peer) and
+every history of any length - `Send` / `Receive` with any timeout, `Send(buffer)` and driver steps with any `poll`
+result, in any interleaving - in which no `assert` of the glue fires (a firing assert is a crash, which the predicate
+rejects: `example` at the end of `Spec/C18.lean`).  Hence the C07 budget clauses (unlimited / zero / within `T` in
+sum), "nothing delivered before the engine answered `done` with the handshake finished", "nothing from a non-TLS peer",
+"no empty buffer to the handler", "disconnect handler at most once" and MSG_NOSIGNAL are consequences of the model for
+all these histories; a `spec` verdict of these clauses on the implementation is a difference between implementation
+and model, and the oracle is never stricter than the model. -/
+theorem spec_holds_on_model_partial {σ ω : Type} (V : Spec.Env σ ω) (hW : Spec.VClock V.W) (m0 : Spec.Sys σ ω)
+    (hE : Spec.EngOk V.E m0.plain) (h0 : m0.Fresh) (history : List Spec.Op)
+    (hna : ∀ o ∈ Spec.modelTrace V m0 history, o.isAbort = false) :
+    ∃ s, Spec.specRun {} (Spec.modelTrace V m0 history) = .ok s :=
+  Spec.model_satisfies_spec_partial V hW m0 hE h0 history hna
+
+/-- the hypotheses are satisfiable by a non-trivial history (13 operations on a synchronous client and an asynchronous
+server, 58 observations; more examples, including traces the predicate rejects, at the end of `Spec/C18.lean`) -/
+example : Spec.VClock TW.world := Spec.TW.vclock
+example : Spec.EngOk Spec.demoEngine false := Spec.demoEngine_ok
 
 end SockModel.Tls
